@@ -24,6 +24,9 @@ type C23Plan struct {
 	Concurrent bool `json:"concurrent"`
 	Yields     int  `json:"yields"`
 	Rounds     int  `json:"rounds"`
+	// Sched: the concurrent run is executed under the cooperative scheduler (instrumented build);
+	// the plan's tape decides every interleaving, so the run replays exactly.
+	Sched *C37dPlan `json:"sched,omitempty"`
 }
 
 func genC23(rt *rapid.T) any {
@@ -38,6 +41,13 @@ func genC23(rt *rapid.T) any {
 	}
 	p.Yields = rapid.SampledFrom([]int{0, 1, 3, 8}).Draw(rt, "yields")
 	p.Rounds = rapid.IntRange(1, 3).Draw(rt, "rounds")
+	if p.Concurrent {
+		sp := genC37d(rt).(*C37dPlan)
+		sp.Txs = true
+		sp.Readers = 0
+		p.Sched = sp
+		p.TreePlan = TreePlan{Cfg: sp.Tree.Cfg} // the scheduled plan carries its own tree
+	}
 	return p
 }
 
@@ -45,6 +55,11 @@ func execC23(t *testing.T, plan any, r *simkit.Run) {
 	p := plan.(*C23Plan)
 	if !p.Concurrent {
 		execTree(Oracles{}, ObsOracles{C23: true}, func(w *World, o *Observer, r *simkit.Run) bool { return true })(t, &p.TreePlan, r)
+		return
+	}
+	if p.Sched != nil {
+		r.Count("mode.scheduled", 1)
+		runSched(t, p.Sched, r, true)
 		return
 	}
 	attempts := 1
@@ -156,9 +171,9 @@ func SpecC23c() simkit.Spec {
 	s.Gen = genC23
 	s.NewPlan = func() any { return &C23Plan{} }
 	s.Exec = execC23
-	s.Rule += "; one third of the runs instead deliver the blocks and submit the very transactions they contain from two tasks released together (slow-disk fault: 0-8 scheduler yields before each write), judged at quiescence"
-	s.FaultKinds = append(s.FaultKinds, "fault.slow_disk")
-	s.Probes = append(s.Probes, "concurrent.runs")
-	s.Assumptions = append(s.Assumptions, "in the concurrent third the Go scheduler picks the interleaving; a replay repeats the workload up to 12 times")
+	s.Rule += "; one third of the runs instead run under the cooperative scheduler (instrumented build: locks, task starts and channel operations of protocol, casper, event are yield points): block feeders, a vote feeder and a submitter that offers the very transactions the blocks being connected contain are tasks, the plan's tape picks the next task at every yield, and the invariant is judged at quiescence"
+	s.Probes = append(s.Probes, "mode.scheduled", "simrt.steps", "simrt.calls")
+	s.ReplayAttempts = 8
+	s.Assumptions = append(s.Assumptions, "code under test that selects among several ready channels still draws from the Go runtime: concurrent replays are attempted up to 8 times")
 	return s
 }
